@@ -212,6 +212,15 @@ func runStream(s Stream, property string, seed int64, n int, thorough bool, gmod
 			keys[i] = lastPanicKey
 		}
 	}
+	for i := range cases {
+		if noTrace && !strings.HasPrefix(impls[i], "process-died") {
+			// race-detector-only run: without the tracer the scenario's own verdict means nothing
+			impls[i] = "ok"
+			if _, isTr := s.(Tracing); isTr {
+				impls[i] = "ok\t"
+			}
+		}
+	}
 	for i, c := range cases {
 		lines[i] = c.Line
 		if tr, ok := s.(Tracing); ok {
@@ -224,7 +233,7 @@ func runStream(s Stream, property string, seed int64, n int, thorough bool, gmod
 		}
 	}
 	var models []string
-	if _, ok := s.(OracleOnly); ok {
+	if _, ok := s.(OracleOnly); ok || noTrace {
 		models = make([]string, len(lines))
 		for i := range models {
 			models[i] = "unmodelled"
